@@ -107,12 +107,39 @@ def variants_small(n_payloads):
     return out
 
 
-def make_details(payload, names=NAMES):
+def make_details(payload, names=NAMES, fresh_types=False, dead_ids=(), victims=None):
     d = {}
+    if victims:
+        # the previous test's details die now, immediately before the new content types are made
+        victims.clear()
     for i, (ci, ti) in enumerate(payload):
         chunks = list(CHUNKS[ci])
-        d[names[i]] = Content(TYPES[ti], lambda chunks=chunks: list(chunks))
+        ct = TYPES[ti]
+        if fresh_types:
+            # as a test that builds its content types on the spot does; the allocator hands out
+            # the addresses of dead objects again, and we insist on seeing that happen here: the
+            # new content type sits where one of the previous test's (now dead) ones sat
+            # (the parameter dicts come from a pool made beforehand, so that the only objects
+            # allocated here are the content types themselves)
+            spares = _SPARES
+            base = ct
+            for k in range(len(_PARAM_POOL[ti])):
+                ct = ContentType(base.type, base.subtype, _PARAM_POOL[ti][k])
+                if not dead_ids or id(ct) in dead_ids:
+                    break
+                spares[k] = ct
+            else:
+                FRESH_STATS["address_not_reused"] += 1
+            FRESH_STATS["fresh_types"] += 1
+            for k in range(len(spares)):
+                spares[k] = None
+        d[names[i]] = Content(ct, lambda chunks=chunks: list(chunks))
     return d
+
+
+FRESH_STATS = {"fresh_types": 0, "address_not_reused": 0}
+_PARAM_POOL = [[dict(t.parameters) for _ in range(500)] for t in TYPES]
+_SPARES = [None] * 500
 
 
 def times_of(n, explicit):
@@ -131,6 +158,7 @@ def run_history(tests, setting):
     run_tags, test_tags, explicit = setting[:3]
     names = NAME_SETS[setting[3]] if len(setting) > 3 else NAMES
     target_stopped = len(setting) > 4 and setting[4] == "stopped"
+    fresh_types = len(setting) > 4 and setting[4] == "freshtypes"
     same_id = len(setting) > 4 and setting[4] == "sameid"  # a test that is run again (retried) within the run
     stream = rec.Stream()
     ext = rec.Ext()
@@ -141,6 +169,8 @@ def run_history(tests, setting):
         ext.shouldStop = True
     problems = []
     reported = []
+    dead_ids = set()
+    victims = None
     try:
         top.startTestRun()
         if run_tags:
@@ -160,7 +190,15 @@ def run_history(tests, setting):
             details = None
             reason = None
             exc = None
-            if form == "details":
+            if form == "details" and fresh_types:
+                # every detail has a content type object of its own, which lives no longer than
+                # the test does
+                details = make_details(payload, names, fresh_types=True, dead_ids=dead_ids, victims=victims)
+                dead_ids = {id(c.content_type) for c in details.values()}
+                getattr(top, outcome)(t, details=details)
+                victims = details
+                details = make_details(payload, names)  # (equal, for the comparison below)
+            elif form == "details":
                 details = make_details(payload, names)
                 getattr(top, outcome)(t, details=details)
             elif form == "exc":
@@ -205,10 +243,32 @@ def run_history(tests, setting):
             top.addSuccess(t)
             top.stopTest(t)
             top.stopTestRun()
+            n_second = len(stream.log)
+            # a third run: a time is supplied for its first test and withdrawn again (time(None):
+            # "reset the TestResult to gathering time from the system") before its second
+            top.startTestRun()
+            top.time(ts(50))
+            t = make_test("placeholder", 100)
+            top.startTest(t)
+            top.addSuccess(t)
+            top.stopTest(t)
+            top.time(None)
+            t = make_test("placeholder", 101)
+            top.startTest(t)
+            top.addSuccess(t)
+            top.stopTest(t)
+            top.stopTestRun()
         except Exception as e:
             problems.append(("call-raised", "second run: %s: %s" % (type(e).__name__, str(e)[:150])))
             return problems
         after = _dt.datetime.now(_dt.timezone.utc)
+        evs3 = [e[1] for e in stream.log[n_second:] if e[0] == "status"]
+        del stream.log[n_second:]
+        got3 = [("supplied" if e["timestamp"] == ts(50) else "clock" if e["timestamp"] is not None and before <= e["timestamp"] <= after else repr(e["timestamp"])) for e in evs3]
+        if got3 != ["supplied", "supplied", "clock", "clock"]:
+            problems.append(("stream-time", "third run, time(t) for the first test and time(None) before the second: event timestamps are %r" % (got3,)))
+        n_ext3 = [i for i, e in enumerate(ext.log) if e[0] == "startTestRun"][-1]
+        del ext.log[n_ext3:]
         evs2 = [e[1] for e in stream.log[len(first_stream) :] if e[0] == "status"]
         if [e["test_status"] for e in evs2 if e["test_status"]] != ["inprogress", "success"]:
             problems.append(("stream-final", "second run: stream %r" % (_brief(evs2),)))
@@ -372,6 +432,8 @@ def work_items(tier):
         items.append(([("case",) + a, ("placeholder",) + b], (False, True, "back", 0)))
         items.append(([("case",) + a, ("placeholder",) + b], (True, True, True, 0, "sameid")))
         items.append(([("case",) + a, ("placeholder",) + b], (True, "strip", True, 0)))
+    for ti, tj in itertools.product(range(len(TYPES)), repeat=2):
+        items.append(([("case", "addSuccess", "details", ((1, ti),)), ("placeholder", "addError", "details", ((1, tj), (2, ti)))], (False, False, True, 0, "freshtypes")))
     for a in variants_small(3):
         items.append(([("case",) + a], (True, True, True, 0, "rerun")))
     if tier != "quick":
@@ -403,6 +465,8 @@ def run_shard(shard, tier, seed):
         for clause, msg in problems:
             res.violation("C09/%s" % clause, "%s [history %r setting %r]" % (msg, tests, setting), {"tests": [list(t[:3]) + [[list(p) for p in t[3]]] for t in tests], "setting": list(setting)})
     res.traces_validated = res.evaluations
+    res.count("content_types_built_on_the_spot", FRESH_STATS["fresh_types"])
+    res.count("of_which_at_the_address_of_a_dead_one", FRESH_STATS["fresh_types"] - FRESH_STATS["address_not_reused"])
     res.add_sample({"history": [["case", "addSkip", "reason-nonascii", []], ["placeholder", "addFailure", "details", [[3, 2], [7, 0]]]], "setting": [True, True, True]})
     res.notes["histories"] = len(items)
     return res
